@@ -537,6 +537,254 @@ with dec_fields (fs : fields) (p : bytes) {struct fs} : res (list val) :=
       end
   end.
 
+(** * The Stream, literally (decode.go): input, stack of list limits, cached kind.
+
+    This second transcription keeps the mutable state of [Stream] as it is: [remaining] is the
+    length of [s_in] (DecodeBytes), [s_stack] is the stack of list limits (innermost first),
+    [s_cache] is (kind, size, byteval) of the value ahead ([s.kind >= 0]).  It reproduces two
+    quirks the window decoder above abstracts from: [Kind] compares the size of a list element
+    with the list limit read *before* the element's header was consumed, and [List] subtracts
+    the size from the enclosing limit without a check (uint64 wrap).  Both only change which
+    error is reported (an input that trips them is never accepted), which is why the error
+    classes of the correspondence run are taken from this machine, while acceptance and the
+    decoded value are taken from both and must agree. *)
+Definition two64 : N := 18446744073709551616.
+Record stream := mkS { s_in : bytes; s_stack : list N; s_cache : option (kind * N * byte) }.
+Inductive sres (A : Type) := SOk (v : A) (s : stream) | SErr (e : err).
+Arguments SOk {A}. Arguments SErr {A}.
+
+Definition sbind {A B} (r : sres A) (f : A -> stream -> sres B) : sres B :=
+  match r with SErr e => SErr e | SOk v s => f v s end.
+Definition smap {A B} (f : A -> B) (r : sres A) : sres B :=
+  match r with SErr e => SErr e | SOk v s => SOk (f v) s end.
+
+Definition rearm (s : stream) : stream := mkS (s_in s) (s_stack s) None.
+
+(** willRead + the read itself *)
+Definition s_read_full (n : N) (s : stream) : sres bytes :=
+  match s_stack s with
+  | l :: r =>
+    if l <? n then SErr EElemTooLarge
+    else if len (s_in s) <? n then SErr EValueTooLarge
+    else SOk (take n (s_in s)) (mkS (drop n (s_in s)) ((l - n) :: r) None)
+  | [] =>
+    if len (s_in s) <? n then SErr EValueTooLarge
+    else SOk (take n (s_in s)) (mkS (drop n (s_in s)) [] None)
+  end.
+
+Definition s_read_uint (size : N) (s : stream) : sres N :=
+  if size =? 0 then SOk 0 (rearm s)
+  else
+    sbind (s_read_full size s) (fun b s' =>
+    if size =? 1 then SOk (be_val b) s'
+    else if bN (hd x00 b) =? 0 then SErr ECanonSize
+    else SOk (be_val b) s').
+
+(** readKind *)
+Definition s_read_kind (s : stream) : sres (kind * N * byte) :=
+  match s_read_full 1 s with
+  | SErr e =>
+    match s_stack s, e with
+    | [], EValueTooLarge => SErr EEOF
+    | _, _ => SErr e
+    end
+  | SOk b1 s1 =>
+    let b := hd x00 b1 in
+    let t := bN b in
+    if t <? 128 then SOk (KByte, 0, b) s1
+    else if t <? 184 then SOk (KString, t - 128, x00) s1
+    else if t <? 192 then
+      sbind (s_read_uint (t - 183) s1) (fun size s2 =>
+      if size <? 56 then SErr ECanonSize else SOk (KString, size, x00) s2)
+    else if t <? 248 then SOk (KList, t - 192, x00) s1
+    else
+      sbind (s_read_uint (t - 247) s1) (fun size s2 =>
+      if size <? 56 then SErr ECanonSize else SOk (KList, size, x00) s2)
+  end.
+
+(** Kind: cached; EOL at the end of the innermost list; size checks against the limit taken
+    before the header was read and against the remaining input *)
+Definition s_kind (s : stream) : sres (kind * N * byte) :=
+  match s_cache s with
+  | Some c => SOk c s
+  | None =>
+    match s_stack s with
+    | l :: _ =>
+      if l =? 0 then SErr EEOL
+      else
+        sbind (s_read_kind s) (fun c s' =>
+        let '(k, size, bv) := c in
+        if l <? size then SErr EElemTooLarge
+        else if len (s_in s') <? size then SErr EValueTooLarge
+        else SOk c (mkS (s_in s') (s_stack s') (Some c)))
+    | [] =>
+      sbind (s_read_kind s) (fun c s' =>
+      let '(k, size, bv) := c in
+      if len (s_in s') <? size then SErr EValueTooLarge
+      else SOk c (mkS (s_in s') (s_stack s') (Some c)))
+    end
+  end.
+
+Definition s_bytes (s : stream) : sres bytes :=
+  sbind (s_kind s) (fun c s' =>
+  match c with
+  | (KByte, _, bv) => SOk [bv] (rearm s')
+  | (KString, size, _) =>
+    sbind (s_read_full size s') (fun b s'' =>
+    if (size =? 1) && (bN (hd x00 b) <? 128) then SErr ECanonSize else SOk b s'')
+  | (KList, _, _) => SErr EExpectedString
+  end).
+
+Definition s_uint (maxbits : N) (s : stream) : sres N :=
+  sbind (s_kind s) (fun c s' =>
+  match c with
+  | (KByte, _, bv) => if bN bv =? 0 then SErr ECanonInt else SOk (bN bv) (rearm s')
+  | (KString, size, _) =>
+    if maxbits / 8 <? size then SErr EUintOverflow
+    else match s_read_uint size s' with
+         | SErr ECanonSize => SErr ECanonInt
+         | SErr e => SErr e
+         | SOk v s'' => if (0 <? size) && (v <? 128) then SErr ECanonSize else SOk v s''
+         end
+  | (KList, _, _) => SErr EExpectedString
+  end).
+
+Definition s_bool (s : stream) : sres bool :=
+  sbind (s_uint 8 s) (fun v s' =>
+  if v =? 0 then SOk false s' else if v =? 1 then SOk true s' else SErr EBool).
+
+Definition s_big (s : stream) : sres N :=
+  sbind (s_kind s) (fun c s' =>
+  match c with
+  | (KList, _, _) => SErr EExpectedString
+  | (KByte, _, bv) => if bN bv =? 0 then SErr ECanonInt else SOk (bN bv) (rearm s')
+  | (KString, size, _) =>
+    if size =? 0 then SOk 0 (rearm s')
+    else
+      sbind (s_read_full size s') (fun b s'' =>
+      if (size <=? 32) && (size =? 1) && (bN (hd x00 b) <? 128) then SErr ECanonSize
+      else if bN (hd x00 b) =? 0 then SErr ECanonInt
+      else SOk (be_val b) s'')
+  end).
+
+Definition s_array (n : N) (s : stream) : sres bytes :=
+  sbind (s_kind s) (fun c s' =>
+  match c with
+  | (KByte, _, bv) =>
+    if n =? 0 then SErr EStrTooLong else if 1 <? n then SErr EStrTooShort else SOk [bv] (rearm s')
+  | (KString, size, _) =>
+    if n <? size then SErr EStrTooLong
+    else if size <? n then SErr EStrTooShort
+    else
+      sbind (s_read_full size s') (fun b s'' =>
+      if (size =? 1) && (bN (hd x00 b) <? 128) then SErr ECanonSize else SOk b s'')
+  | (KList, _, _) => SErr EExpectedString
+  end).
+
+Definition s_raw (s : stream) : sres bytes :=
+  sbind (s_kind s) (fun c s' =>
+  match c with
+  | (KByte, _, bv) => SOk [bv] (rearm s')
+  | (KString, size, _) => smap (app (str_head size)) (s_read_full size s')
+  | (KList, size, _) => smap (app (list_head size)) (s_read_full size s')
+  end).
+
+(** List(): the enclosing limit is reduced by the size (uint64 arithmetic), the size is pushed *)
+Definition s_list (s : stream) : sres N :=
+  sbind (s_kind s) (fun c s' =>
+  match c with
+  | (KList, size, _) =>
+    let st := match s_stack s' with
+              | l :: r => ((l + two64 - size) mod two64) :: r
+              | [] => []
+              end in
+    SOk size (mkS (s_in s') (size :: st) None)
+  | _ => SErr EExpectedList
+  end).
+
+Definition s_list_end (s : stream) : sres unit :=
+  match s_stack s with
+  | [] => SErr EFuel (* errNotInList: unreachable *)
+  | l :: r => if 0 <? l then SErr ENotAtEOL else SOk tt (mkS (s_in s) r None)
+  end.
+
+(** decodeSliceElems: until the element decoder reports EOL *)
+Fixpoint s_slice_elems {A} (elem : stream -> sres A) (n : nat) (s : stream) : sres (list A) :=
+  match elem s with
+  | SErr EEOL => SOk [] s
+  | SErr e => SErr e
+  | SOk x s' =>
+    match n with
+    | O => SErr EFuel
+    | S n' => smap (cons x) (s_slice_elems elem n' s')
+    end
+  end.
+
+Definition s_list_slice {A} (elem : stream -> sres A) (s : stream) : sres (list A) :=
+  sbind (s_list s) (fun size s' =>
+  if size =? 0 then smap (fun _ => []) (s_list_end s')
+  else
+    sbind (s_slice_elems elem (length (s_in s')) s') (fun xs s'' =>
+    smap (fun _ => xs) (s_list_end s''))).
+
+Fixpoint s_item (fuel : nat) (s : stream) : sres item :=
+  match fuel with
+  | O => SErr EFuel
+  | S f =>
+    sbind (s_kind s) (fun c s' =>
+    match c with
+    | (KList, _, _) => smap List (s_list_slice (s_item f) s')
+    | _ => smap Str (s_bytes s')
+    end)
+  end.
+
+Fixpoint s_val (t : ty) (tg : tag) (s : stream) {struct t} : sres val :=
+  match t with
+  | TUint bits => smap VUint (s_uint bits s)
+  | TBig => smap VUint (s_big s)
+  | TBool => smap VBool (s_bool s)
+  | TBytes | TString => smap VBytes (s_bytes s)
+  | TArray n => smap VBytes (s_array n s)
+  | TRaw => smap VBytes (s_raw s)
+  | TIface => smap VItem (s_item (S (length (s_in s))) s)
+  | TList e =>
+    if t_tail tg then smap VList (s_slice_elems (s_val e no_tag) (length (s_in s)) s)
+    else smap VList (s_list_slice (s_val e no_tag) s)
+  | TPtr e =>
+    match t_nil tg with
+    | NoNil => smap VPtr (s_val e no_tag s)
+    | _ =>
+      sbind (s_kind s) (fun c s' =>
+      let '(k, size, _) := c in
+      if negb (kind_eqb k KByte) && (size =? 0) then
+        if kind_eqb k (nil_kind e tg) then SOk VNil (rearm s') else SErr EWrongEmpty
+      else smap VPtr (s_val e no_tag s'))
+    end
+  | TStruct fs =>
+    sbind (s_list s) (fun _ s' =>
+    sbind (s_fields fs s') (fun vs s'' =>
+    smap (fun _ => VStruct vs) (s_list_end s'')))
+  end
+with s_fields (fs : fields) (s : stream) {struct fs} : sres (list val) :=
+  match fs with
+  | FNil => SOk [] s
+  | FCons t tg r =>
+    if t_ignored tg then smap (cons (zero_val t)) (s_fields r s)
+    else
+      match s_val t tg s with
+      | SErr EEOL => if t_optional tg then SOk (zero_fields fs) s else SErr ETooFew
+      | SErr e => SErr e
+      | SOk v s' => smap (cons v) (s_fields r s')
+      end
+  end.
+
+(** rlp.DecodeBytes through the literal Stream *)
+Definition stream_decode_bytes (t : ty) (bs : bytes) : sres val :=
+  match s_val t no_tag (mkS bs [] None) with
+  | SErr e => SErr e
+  | SOk v s => match s_in s with [] => SOk v s | _ :: _ => SErr EMoreThanOne end
+  end.
+
 (** rlp.EncodeToBytes / rlp.DecodeBytes on a type descriptor *)
 Definition encode_to_bytes (t : ty) (v : val) : bytes := enc_val t no_tag v.
 Definition decode_bytes (t : ty) (bs : bytes) : res val := exactly_one (dec_val t no_tag false bs).
